@@ -103,9 +103,9 @@ Props/C06.vos Props/C06.vok Props/C06.required_vos: Props/C06.v Props/Shipped.vo
 Props/C07.vo Props/C07.glob Props/C07.v.beautified Props/C07.required_vo: Props/C07.v Props/Shipped.vo Proofs/Laws.vo Proofs/Respell.vo
 Props/C07.vio: Props/C07.v Props/Shipped.vio Proofs/Laws.vio Proofs/Respell.vio
 Props/C07.vos Props/C07.vok Props/C07.required_vos: Props/C07.v Props/Shipped.vos Proofs/Laws.vos Proofs/Respell.vos
-Props/C10.vo Props/C10.glob Props/C10.v.beautified Props/C10.required_vo: Props/C10.v Props/Shipped.vo Spec/Eval.vo Proofs/Laws.vo Proofs/Respell.vo
-Props/C10.vio: Props/C10.v Props/Shipped.vio Spec/Eval.vio Proofs/Laws.vio Proofs/Respell.vio
-Props/C10.vos Props/C10.vok Props/C10.required_vos: Props/C10.v Props/Shipped.vos Spec/Eval.vos Proofs/Laws.vos Proofs/Respell.vos
+Props/C10.vo Props/C10.glob Props/C10.v.beautified Props/C10.required_vo: Props/C10.v Props/Shipped.vo Spec/Eval.vo Proofs/Laws.vo Proofs/Respell.vo Proofs/Split.vo Proofs/SpacesAnywhere.vo
+Props/C10.vio: Props/C10.v Props/Shipped.vio Spec/Eval.vio Proofs/Laws.vio Proofs/Respell.vio Proofs/Split.vio Proofs/SpacesAnywhere.vio
+Props/C10.vos Props/C10.vok Props/C10.required_vos: Props/C10.v Props/Shipped.vos Spec/Eval.vos Proofs/Laws.vos Proofs/Respell.vos Proofs/Split.vos Proofs/SpacesAnywhere.vos
 Props/C15.vo Props/C15.glob Props/C15.v.beautified Props/C15.required_vo: Props/C15.v Props/Shipped.vo Spec/Lex.vo Proofs/ScanRef.vo Proofs/Offsets.vo Proofs/ApiFacts.vo Proofs/Unknown.vo
 Props/C15.vio: Props/C15.v Props/Shipped.vio Spec/Lex.vio Proofs/ScanRef.vio Proofs/Offsets.vio Proofs/ApiFacts.vio Proofs/Unknown.vio
 Props/C15.vos Props/C15.vok Props/C15.required_vos: Props/C15.v Props/Shipped.vos Spec/Lex.vos Proofs/ScanRef.vos Proofs/Offsets.vos Proofs/ApiFacts.vos Proofs/Unknown.vos
@@ -139,9 +139,9 @@ Proofs/ExcGuard.vos Proofs/ExcGuard.vok Proofs/ExcGuard.required_vos: Proofs/Exc
 Proofs/TablesSound.vo Proofs/TablesSound.glob Proofs/TablesSound.v.beautified Proofs/TablesSound.required_vo: Proofs/TablesSound.v Spec/TablesSpec.vo
 Proofs/TablesSound.vio: Proofs/TablesSound.v Spec/TablesSpec.vio
 Proofs/TablesSound.vos Proofs/TablesSound.vok Proofs/TablesSound.required_vos: Proofs/TablesSound.v Spec/TablesSpec.vos
-Props/C12.vo Props/C12.glob Props/C12.v.beautified Props/C12.required_vo: Props/C12.v Props/Shipped.vo Spec/TablesSpec.vo Spec/Grammar.vo Gen/SpdxJson.vo Gen/Files.vo Gen/Template.vo WF/JsonPartition.vo WF/FilesRegenerate.vo WF/IdsParse.vo Proofs/ExcGuard.vo Proofs/ParseGrammar.vo Proofs/MatchProof.vo Proofs/TablesSound.vo
-Props/C12.vio: Props/C12.v Props/Shipped.vio Spec/TablesSpec.vio Spec/Grammar.vio Gen/SpdxJson.vio Gen/Files.vio Gen/Template.vio WF/JsonPartition.vio WF/FilesRegenerate.vio WF/IdsParse.vio Proofs/ExcGuard.vio Proofs/ParseGrammar.vio Proofs/MatchProof.vio Proofs/TablesSound.vio
-Props/C12.vos Props/C12.vok Props/C12.required_vos: Props/C12.v Props/Shipped.vos Spec/TablesSpec.vos Spec/Grammar.vos Gen/SpdxJson.vos Gen/Files.vos Gen/Template.vos WF/JsonPartition.vos WF/FilesRegenerate.vos WF/IdsParse.vos Proofs/ExcGuard.vos Proofs/ParseGrammar.vos Proofs/MatchProof.vos Proofs/TablesSound.vos
+Props/C12.vo Props/C12.glob Props/C12.v.beautified Props/C12.required_vo: Props/C12.v Props/Shipped.vo Spec/TablesSpec.vo Spec/Grammar.vo Gen/SpdxJson.vo Gen/Files.vo Gen/Template.vo WF/JsonPartition.vo WF/FilesRegenerate.vo WF/IdsParse.vo Proofs/ExcGuard.vo Proofs/ParseGrammar.vo Proofs/MatchProof.vo Proofs/TablesSound.vo Proofs/FoldUnique.vo
+Props/C12.vio: Props/C12.v Props/Shipped.vio Spec/TablesSpec.vio Spec/Grammar.vio Gen/SpdxJson.vio Gen/Files.vio Gen/Template.vio WF/JsonPartition.vio WF/FilesRegenerate.vio WF/IdsParse.vio Proofs/ExcGuard.vio Proofs/ParseGrammar.vio Proofs/MatchProof.vio Proofs/TablesSound.vio Proofs/FoldUnique.vio
+Props/C12.vos Props/C12.vok Props/C12.required_vos: Props/C12.v Props/Shipped.vos Spec/TablesSpec.vos Spec/Grammar.vos Gen/SpdxJson.vos Gen/Files.vos Gen/Template.vos WF/JsonPartition.vos WF/FilesRegenerate.vos WF/IdsParse.vos Proofs/ExcGuard.vos Proofs/ParseGrammar.vos Proofs/MatchProof.vos Proofs/TablesSound.vos Proofs/FoldUnique.vos
 Spec/Version.vo Spec/Version.glob Spec/Version.v.beautified Spec/Version.required_vo: Spec/Version.v Model/Match.vo Spec/MatchSpec.vo Spec/WF.vo
 Spec/Version.vio: Spec/Version.v Model/Match.vio Spec/MatchSpec.vio Spec/WF.vio
 Spec/Version.vos Spec/Version.vok Spec/Version.required_vos: Spec/Version.v Model/Match.vos Spec/MatchSpec.vos Spec/WF.vos
@@ -244,3 +244,9 @@ Proofs/RejectProof.vos Proofs/RejectProof.vok Proofs/RejectProof.required_vos: P
 Proofs/Unknown.vo Proofs/Unknown.glob Proofs/Unknown.v.beautified Proofs/Unknown.required_vo: Proofs/Unknown.v Model/Scan.vo Model/Parse.vo Spec/Lex.vo Proofs/BytesFacts.vo Proofs/ScanRef.vo Proofs/Offsets.vo Proofs/Split.vo
 Proofs/Unknown.vio: Proofs/Unknown.v Model/Scan.vio Model/Parse.vio Spec/Lex.vio Proofs/BytesFacts.vio Proofs/ScanRef.vio Proofs/Offsets.vio Proofs/Split.vio
 Proofs/Unknown.vos Proofs/Unknown.vok Proofs/Unknown.required_vos: Proofs/Unknown.v Model/Scan.vos Model/Parse.vos Spec/Lex.vos Proofs/BytesFacts.vos Proofs/ScanRef.vos Proofs/Offsets.vos Proofs/Split.vos
+Proofs/FoldUnique.vo Proofs/FoldUnique.glob Proofs/FoldUnique.v.beautified Proofs/FoldUnique.required_vo: Proofs/FoldUnique.v Spec/WF.vo Proofs/BytesFacts.vo
+Proofs/FoldUnique.vio: Proofs/FoldUnique.v Spec/WF.vio Proofs/BytesFacts.vio
+Proofs/FoldUnique.vos Proofs/FoldUnique.vok Proofs/FoldUnique.required_vos: Proofs/FoldUnique.v Spec/WF.vos Proofs/BytesFacts.vos
+Proofs/SpacesAnywhere.vo Proofs/SpacesAnywhere.glob Proofs/SpacesAnywhere.v.beautified Proofs/SpacesAnywhere.required_vo: Proofs/SpacesAnywhere.v Model/Scan.vo Model/Parse.vo Spec/Lex.vo Proofs/BytesFacts.vo Proofs/ScanRef.vo Proofs/Offsets.vo Proofs/Split.vo Proofs/Lexo.vo
+Proofs/SpacesAnywhere.vio: Proofs/SpacesAnywhere.v Model/Scan.vio Model/Parse.vio Spec/Lex.vio Proofs/BytesFacts.vio Proofs/ScanRef.vio Proofs/Offsets.vio Proofs/Split.vio Proofs/Lexo.vio
+Proofs/SpacesAnywhere.vos Proofs/SpacesAnywhere.vok Proofs/SpacesAnywhere.required_vos: Proofs/SpacesAnywhere.v Model/Scan.vos Model/Parse.vos Spec/Lex.vos Proofs/BytesFacts.vos Proofs/ScanRef.vos Proofs/Offsets.vos Proofs/Split.vos Proofs/Lexo.vos
